@@ -1122,11 +1122,16 @@ class SessionTransaction(_StateChange, TransactionalContext):
             # if we expunged or not, but safe_discard does that anyway
             self.session.identity_map.safe_discard(s)
 
+            if s.key is None:
+                # sent back to transient, above or by make_transient();
+                # there is no identity to restore
+                continue
+
             # restore the old key
             s.key = oldkey
 
-            # now restore the object, but only if we didn't expunge
-            if s not in to_expunge:
+            # now restore the object, but only if it is still ours
+            if s.session_id == self.session.hash_key:
                 self.session.identity_map.replace(s)
 
         for s in set(self._deleted).union(self.session._deleted):
